@@ -132,6 +132,22 @@ def flip_nibble(hexstr, pos=0):
 _LOOKALIKE = {"a": "\u0430", "c": "\u0441", "e": "\u0435"}
 
 
+_TAILS = {}
+
+
+def content_with_digest_tail(halgo, tail):
+    """A short content whose digest under `halgo` ENDS with the hex string `tail` (found by search, cached): file names in
+    the store are tails of digests, so code that edits names (suffixes such as '_delete') meets every hex digit there."""
+    key = (halgo, tail)
+    if key not in _TAILS:
+        import hashlib
+        i = 0
+        while not hashlib.new(halgo, b"tail-%d" % i).hexdigest().endswith(tail):
+            i += 1
+        _TAILS[key] = {"hex": (b"tail-%d" % i).hex()}
+    return _TAILS[key]
+
+
 def lookalike(hexstr, pos=0):
     """A wrong checksum that LOOKS right: one character replaced by a non-ASCII look-alike (Cyrillic a / c / e, or a
     full-width digit) - what a copy from a rendered page can produce.  Never equal to the true digest."""
